@@ -166,7 +166,16 @@ def exec_stmt(eng: Engine, fn: FnCtx, s: ast.stmt, st: State) -> Iterator[Outcom
 		yield from simple(do3)
 		return
 	if isinstance(s, ast.Return):
-		for kind, res, st2 in explore(eng, fn, st, lambda ev: (eval_typed(ev, s.value, fn.ret_ty) if s.value is not None else ev.lift(None)), ln):
+		def ret(ev: Ev) -> Val:
+			if s.value is None:
+				return ev.lift(None)
+			if fn.depth > 0:
+				try:
+					return eval_typed(ev, s.value, fn.ret_ty)
+				except EngineError:
+					return ev.eval(s.value)  # inlined callee: Python does not enforce the return annotation
+			return eval_typed(ev, s.value, fn.ret_ty)
+		for kind, res, st2 in explore(eng, fn, st, ret, ln):
 			yield ('return', res, st2) if kind == 'ok' else ('raise', res, st2)
 		return
 	if isinstance(s, ast.Raise):
